@@ -266,6 +266,19 @@ def _disp_component():
         return dispgen.gen(rng, tier)
     c = disp_common.component("c10", name="disp_hostile")
     c["gen"] = gen_hostile_disp
+
+    def pred(line, out):
+        # the whole case line (the runner needs the ops to know which datagram each recv arm consumed and what it
+        # parsed to), then the implementation's observations: driver/c_disp.ml run_disp_pred_c10 evaluates
+        # c10_disp_step_ok on every run_once whose recv arm fired, c10_disp_bounds_ok on every post-state, no PANIC,
+        # and (as before) c12_step_ok on every step
+        if "ARM-NOT-REACHED" in out or "BADCASE" in out or "BADCONFIG" in out:
+            return None
+        t = line.split()
+        if len(t) < 3:
+            return None
+        return "disp_pred c10 %s | %s" % (" ".join(t[1:]), out)
+    c["pred"] = pred
     return c
 
 
